@@ -62,6 +62,11 @@ def main(ctx, order=ORDER, pid=PID, tags=TAGS, maxl=MAXL, props="C02All", oracle
         for LB in range(maxl + 1):
             # ECP angular momentum below, at and above the basis angular momentum
             scases.append(dc.make_case(srng, LA, LB, dc.BRANCHES[(LA + 2 * LB) % 5] if (LA + LB) % 3 else "distinct", ecpL=[1, 2, 3, 0][(LA + 2 * LB) % 4]))   # LA = LB = 1 meets a purely local ECP (engine with maxLU = 0)
+    # a purely local ECP (engine built with maxLU = 0) and the largest pair of that engine in general position: table sizes that
+    # forget the derivative order have no headroom left there
+    for k in (1, 2):
+        if k <= maxl:
+            scases.append(dc.make_case(srng, k, k, "distinct", ecpL=0))
     with ThreadPoolExecutor(16) as ex:
         sres = list(ex.map(lambda c: dc.shift_check(drv, c, order), scases))
     shift_fail, shift_worst, nshift = [], 0.0, 0
